@@ -480,10 +480,12 @@ func (c *CqlServerConnection) incomingLoop() {
 func (c *CqlServerConnection) outgoingLoop() {
 	log.Debug().Msgf("%v: listening for outgoing frames...", c)
 	c.waitGroup.Add(1)
+	// capture the channel now: Close replaces the field with nil, and a receive on a nil channel would block forever
+	outgoingChan := c.outgoing
 	go func() {
 		abort := false
 		for !c.IsClosed() {
-			if outgoing, ok := <-c.outgoing; !ok {
+			if outgoing, ok := <-outgoingChan; !ok {
 				if !c.IsClosed() {
 					log.Error().Msgf("%v: outgoing frame channel was closed unexpectedly, closing connection", c)
 					abort = true
